@@ -298,7 +298,7 @@ class Node:
         with_clones: Optional[bool] = None,
     ) -> None:
         """Change node's `data` and/or `data_id` and update bookkeeping."""
-        if not data and not data_id:
+        if data is None and data_id is None:
             raise ValueError("Missing data or data_id")
 
         tree = self._tree
@@ -324,7 +324,7 @@ class Node:
                 "set_data() for clones requires `with_clones` decision"
             )
 
-        if new_data_id:
+        if new_data_id is not None:
             # The new data_id must not exist among the siblings of a modified node
             modified = cur_nodes if (has_clones and with_clones) else [self]
             for n in modified:
@@ -346,7 +346,7 @@ class Node:
                         node_map[new_data_id] = prev_clones
                     for n in prev_clones:
                         n._data_id = new_data_id
-                        if new_data:
+                        if new_data is not None:
                             n._data = new_data
                 else:
                     # Move this one node to another slot in the map
@@ -362,7 +362,7 @@ class Node:
                     except KeyError:  # now a singleton with a new data_id
                         node_map[new_data_id] = [self]
                     self._data_id = new_data_id
-                    if new_data:
+                    if new_data is not None:
                         self._data = new_data
             else:
                 # data_id (and possibly data) changed for a *single* node
@@ -372,9 +372,9 @@ class Node:
                 except KeyError:  # still a singleton, just a new data_id
                     node_map[new_data_id] = [self]
                 self._data_id = new_data_id
-                if new_data:
+                if new_data is not None:
                     self._data = new_data
-        elif new_data:
+        elif new_data is not None:
             # `data` changed, but `data_id` remains the same:
             # simply replace the reference
             if with_clones:
@@ -1339,10 +1339,10 @@ class Node:
 
         See also :ref:`iteration-callbacks`.
         """
-        if data:
+        if data is not None:
             assert data_id is None
             data_id = self._tree.calc_data_id(data)
-        if data_id:
+        if data_id is not None:
             assert match is None
             res = [
                 n for n in self.iterator(add_self=add_self) if n._data_id == data_id
